@@ -71,6 +71,7 @@ type HarnessSpec struct {
 	Renames   map[string]string `json:"renames,omitempty"`    // callee full name -> harness function name
 	EffectsOf []string          `json:"effects_of,omitempty"` // C20: report stores to pre-existing memory
 	Params    map[string]int    `json:"params,omitempty"`     // concrete parameters passed to the entry (lengths etc.)
+	Globals   []string          `json:"globals,omitempty"` // package-level variables whose (natively dumped) values the harness reads
 	Mutants   []Mutant          `json:"mutants,omitempty"`
 	ExpectSat []string          `json:"expect_sat,omitempty"` // assertion ids that MUST be violated (vacuity twins)
 }
@@ -296,6 +297,22 @@ func runGroup(hs []HarnessSpec) []*HarnessReport {
 			rep.ToolError = "load: " + err.Error()
 			continue
 		}
+		if len(h.Globals) > 0 {
+			hh := h
+			if mut != nil {
+				// the mutated file must be part of the native dump as well: dump from a scratch overlay is not supported,
+				// so constants are dumped from the unmutated tree unless the mutant touches none of them
+				_ = hh
+			}
+			gd, gerr := dumpGlobals(h, h.Globals)
+			if gerr != nil {
+				rep.ToolError = gerr.Error()
+				continue
+			}
+			globalDump = gd
+		} else {
+			globalDump = nil
+		}
 		runHarness(prog, pkg, overlay, h, rep)
 		if *verbose {
 			fmt.Fprintf(os.Stderr, "%-40s obl=%d unsat=%d sat=%d unk=%d exec=%.1fs solve=%.1fs %s\n", h.Name, rep.Obligations, rep.Unsat, rep.Sat, rep.Unknown, rep.ExecS, rep.SolveS, rep.ToolError)
@@ -303,6 +320,8 @@ func runGroup(hs []HarnessSpec) []*HarnessReport {
 	}
 	return reps
 }
+
+var globalDump map[string]any
 
 func newMachine(prog *ssa.Program, h HarnessSpec) *Machine {
 	resetExprTables()
@@ -337,6 +356,7 @@ func newMachine(prog *ssa.Program, h HarnessSpec) *Machine {
 		m.oracle[k] = b
 	}
 	m.cur = &State{mem: map[int]Value{}}
+	m.dump = globalDump
 	return m
 }
 
